@@ -34,8 +34,16 @@ pub fn get(name: &str) -> Option<Profile> {
     let p = match name {
         // fault-free happy path
         "happy" => Profile {
-            submits: vec![arr(&[1, 2, 3], 0, 0), graph(vec![g(1, &[], 0, 0), g(2, &[1], 0, 0), g(3, &[1], 1, 0), g(4, &[2, 3], 0, 0)])],
-            max_submits: 2, ..base(name)
+            submits: vec![
+                arr(&[1, 2, 3], 0, 0),
+                graph(vec![g(1, &[], 0, 0), g(2, &[1], 0, 0), g(3, &[1], 1, 0), g(4, &[2, 3], 0, 0)]),
+                // submits that have to be refused: a dependency listed after its consumer, a cycle, a self dependency, a duplicate id
+                graph(vec![g(1, &[2], 0, 0), g(2, &[], 0, 0), g(3, &[], 0, 0)]),
+                graph(vec![g(1, &[], 0, 0), g(2, &[3], 0, 0), g(3, &[2], 0, 0)]),
+                graph(vec![g(1, &[1], 0, 0)]),
+                graph(vec![g(1, &[], 0, 0), g(1, &[], 0, 0)]),
+            ],
+            max_submits: 4, ..base(name)
         },
         // everything on: the default mixed-fault profile
         "mixed" => Profile {
@@ -45,6 +53,7 @@ pub fn get(name: &str) -> Option<Profile> {
                 SubmitSpec { max_fails: 0, ..arr(&[1, 2, 3], 0, 0) },
                 SubmitSpec { crash_limit: 1, ..arr(&[1, 2], 0, 3) },
                 SubmitSpec { crash_limit: -1, ..arr(&[1], 0, 0) },
+                graph(vec![g(1, &[3], 0, 0), g(2, &[], 0, 0), g(3, &[2], 0, 0)]),
             ],
             max_submits: 3, losses: 2, cancels: 2, fails: 2, launch_fails: 1, max_connects: 2,
             ..base(name)
@@ -89,6 +98,7 @@ pub fn get(name: &str) -> Option<Profile> {
                 SubmitSpec { into_open: true, ..graph(vec![g(10, &[], 0, 0), g(11, &[10], 0, 0)]) },
                 SubmitSpec { into_open: true, ..graph(vec![g(20, &[10], 0, 0)]) },
                 SubmitSpec { into_open: true, ..graph(vec![g(30, &[31], 0, 0)]) },
+                SubmitSpec { into_open: true, ..graph(vec![g(40, &[41], 0, 0), g(41, &[], 0, 0)]) },
                 arr(&[1, 2], 0, 0),
                 SubmitSpec { stream: true, ..arr(&[1], 0, 0) },
             ],
@@ -121,6 +131,37 @@ pub fn get(name: &str) -> Option<Profile> {
                 SubmitSpec { time_limit: 2, ..arr(&[1], 1, 2) },
             ],
             max_submits: 3, ticks: 4, fails: 1, cancels: 1, pf_max: 2,
+            ..base(name)
+        },
+        // a worker that runs out of time holds pre-sent tasks that need time, then something of higher priority arrives
+        "timeretract" => Profile {
+            worker_kinds: vec![WorkerKind { time_limit: 3, ..wk(1) }, WorkerKind { time_limit: 4, ..wk(1) }],
+            initial_workers: vec![0, 1],
+            classes: vec![ClassSpec { variants: vec![VariantSpec { cpus: 10_000, gpus: 0, min_time: 2 }], n_nodes: 0 }, class(10_000)],
+            submits: vec![arr(&[1, 2, 3, 4, 5], 0, 0), arr(&[1], 1, 9), arr(&[1, 2], 0, 0), arr(&[1, 2], 1, 0)],
+            max_submits: 3, ticks: 5, pf_max: 2, max_connects: 1,
+            ..base(name)
+        },
+        // the backlog of one worker holds tasks of two jobs, both are called back, one of the jobs is canceled meanwhile
+        "retract2" => Profile {
+            worker_kinds: vec![wk(1)],
+            initial_workers: vec![0],
+            submits: vec![arr(&[1, 2], 0, 0), arr(&[1, 2, 3], 0, 0), arr(&[1], 0, 9), arr(&[1, 2], 0, 0)],
+            max_submits: 4, cancels: 2, pf_max: 2, max_connects: 1,
+            ..base(name)
+        },
+        // pre-sent tasks with two variants of different size, called back and given back to the same worker
+        "variants2" => Profile {
+            worker_kinds: vec![WorkerKind { gpus: 1, ..wk(4) }],
+            initial_workers: vec![0],
+            classes: vec![
+                ClassSpec { variants: vec![VariantSpec { cpus: 10_000, gpus: 10_000, min_time: 0 }, VariantSpec { cpus: 30_000, gpus: 0, min_time: 0 }], n_nodes: 0 },
+                ClassSpec { variants: vec![VariantSpec { cpus: 10_000, gpus: 10_000, min_time: 0 }], n_nodes: 0 },
+                class(10_000),
+                class(30_000),
+            ],
+            submits: vec![arr(&[1, 2, 3, 4], 0, 0), arr(&[1], 1, 0), arr(&[1], 2, 9), arr(&[1], 3, 0), arr(&[1], 2, 9)],
+            max_submits: 5, pf_max: 2,
             ..base(name)
         },
         "variants" => Profile {
@@ -176,4 +217,4 @@ pub fn get(name: &str) -> Option<Profile> {
     Some(p)
 }
 
-pub const ALL: &[&str] = &["jmixed", "jloss", "jmn", "happy", "mixed", "retract", "cancel", "loss", "maxfails", "open", "stream", "mn", "time", "variants"];
+pub const ALL: &[&str] = &["jmixed", "jloss", "jmn", "happy", "mixed", "retract", "cancel", "loss", "maxfails", "open", "stream", "mn", "time", "variants", "timeretract", "retract2", "variants2"];
